@@ -1,5 +1,5 @@
 (* C03/Proofs2.v — the property clauses, from the invariant of Proofs.v. *)
-From Verif Require Import Common.Base C03.Model C03.Proofs.
+From Verif Require Import Common.Base C03.Model C03.Proofs C03.ProofsB.
 
 Lemma fin_in i r l : In (i, r) l -> 1 <= sumf (fin1 i) l.
 Proof.
@@ -16,47 +16,55 @@ Proof.
   - intros H. destruct IH as [r' Hr]; [lia|]. exists r'. right. assumption.
 Qed.
 
-(* the state when Shutdown has returned: nothing in flight, every helper goroutine gone *)
-Lemma returned_quiet c s : Inv c s -> pc s = PReturned ->
-  idle s = 0 /\ holding s = [] /\ cflush s = [] /\ current s = [] /\ works s = [] /\
-  timer_dead (timer s) = true /\ exited s = c_ncons c /\ (forall i, inflight i s = 0) /\ inflight_len s = 0.
+Lemma works_nil (l : list work) : sumf wcons l + sumf wfly l + sumf wcaller l = 0 -> l = [].
 Proof.
-  intros I P.
+  destruct l as [|w l]; [reflexivity|]. simpl. unfold wcons at 1, wfly at 1, wcaller at 1. destruct (w_own w); lia.
+Qed.
+
+(* the state when Shutdown of an exporter WITH a queue has returned: nothing in flight, every helper gone *)
+Lemma returned_quiet c s : Inv c s -> c_queue c = true -> pc s = PReturned ->
+  idle s = 0 /\ holding s = [] /\ cflush s = [] /\ current s = [] /\ works s = [] /\
+  timer_dead (timer s) = true /\ exited s = ncons_eff c /\ (forall i, parts_out i s = 0).
+Proof.
+  intros I Q P.
   assert (J : ge_joined (pc s) = true) by (rewrite P; reflexivity).
   assert (F : ge_flushwait (pc s) = true) by (rewrite P; reflexivity).
   assert (G : ge_flushjoined (pc s) = true) by (rewrite P; reflexivity).
   destruct (joined_quiet _ _ I J) as (H1 & H2 & H3 & _).
   pose proof (i_flushwait _ _ I F) as H4. destruct (i_flushjoined _ _ I G) as [H5 H6].
-  pose proof (i_joined _ _ I J) as H7.
+  pose proof (i_joined _ _ I J) as H7. pose proof (i_nocaller _ _ I Q) as H8.
+  assert (W : works s = []) by (apply works_nil; lia).
   repeat split; try assumption.
-  - intros i. unfold inflight, tmb, pcb. rewrite H2, H3, H4, H5, P. destruct (timer s); try discriminate; reflexivity.
-  - unfold inflight_len, tmb, pcb. rewrite H2, H3, H4, H5, P. destruct (timer s); try discriminate; reflexivity.
+  intros i. unfold parts_out, tmb, pcb. rewrite H3, H4, W, P. destruct (timer s); try discriminate; reflexivity.
 Qed.
 
 (* every request that a consumer took from the queue has been exported and finished *)
-Lemma taken_exported c s : Inv c s -> pc s = PReturned ->
+Lemma taken_exported c s : Inv c s -> c_queue c = true -> pc s = PReturned ->
   forall i, 1 <= cnt i (taken s) -> 1 <= cnt i (begun s) /\ 1 <= sumf (fin1 i) (finished s).
 Proof.
-  intros I P i T. destruct (returned_quiet _ _ I P) as (_ & _ & _ & _ & Hw & _ & _ & Hin & _).
-  pose proof (i_cons _ _ I i). pose proof (i_taken _ _ I i). pose proof (i_nodup _ _ I i).
-  pose proof (i_begun_ge _ _ I i) as B. rewrite Hw in B. simpl in B. specialize (Hin i). lia.
+  intros I Q P i T. destruct (returned_quiet _ _ I Q P) as (_ & Hh & _ & _ & Hw & _ & _ & Hin).
+  pose proof (i_cons _ _ I i) as C. pose proof (i_taken _ _ I i). pose proof (i_nodup _ _ I i).
+  pose proof (i_begun_ge _ _ I i) as B. pose proof (i_fin_done _ _ I i). rewrite Hw in B. simpl in B.
+  rewrite Hh, (Hin i) in C. unfold cnt in C at 2. simpl in C. lia.
 Qed.
 
 Lemma drains_memory_l c ls s :
-  c_persist c = false -> 1 <= c_ncons c -> run c (init c) ls = Some s -> pc s = PReturned ->
+  c_queue c = true -> c_persist c = false -> 1 <= c_ncons c -> run c (init c) ls = Some s -> pc s = PReturned ->
   (forall i, In i (accpre s) ->
-     1 <= cnt i (begun s) /\ (failures s = 0 -> cnt i (begun s) = 1) /\
-     (~ In i (failedids s) -> cnt i (begun s) = 1) /\ exists r, In (i, r) (finished s))
+     1 <= cnt i (begun s) /\ (failures s = 0 -> cnt i (begun s) = cnt i (nparts s)) /\
+     (~ In i (failedids s) -> cnt i (begun s) = cnt i (nparts s)) /\ exists r, In (i, r) (finished s))
   /\ (forall i, cnt i (ended s) = cnt i (begun s)).
 Proof.
-  intros M N R P. assert (I : Inv c s) by (eapply run_inv; [apply init_inv|eassumption]).
-  destruct (returned_quiet _ _ I P) as (_ & _ & _ & _ & Hw & _ & Hex & Hin & _).
+  intros Q M N R P. assert (I : Inv c s) by (eapply run_inv; [apply init_inv|eassumption]).
+  destruct (returned_quiet _ _ I Q P) as (_ & Hh & _ & _ & Hw & _ & Hex & Hin).
+  unfold ncons_eff in Hex. rewrite Q in Hex.
   split.
   - intros i A. apply cnt_in in A.
-    pose proof (i_cons _ _ I i). pose proof (i_nodup _ _ I i). pose proof (i_prelate _ _ I i).
+    pose proof (i_cons _ _ I i) as C. pose proof (i_nodup _ _ I i). pose proof (i_prelate _ _ I i).
     assert (E : 1 <= exited s) by lia.
-    pose proof (i_late _ _ I M E i). specialize (Hin i).
-    pose proof (i_begun_ge _ _ I i) as B. rewrite Hw in B. simpl in B.
+    pose proof (i_late _ _ I M E i). rewrite Hh, (Hin i) in C. unfold cnt in C at 2. simpl in C.
+    pose proof (i_begun_ge _ _ I i) as B. rewrite Hw in B. simpl in B. pose proof (i_fin_done _ _ I i).
+    pose proof (i_parts _ _ I i) as Pa. rewrite (Hin i) in Pa.
     assert (F1 : 1 <= sumf (fin1 i) (finished s)) by lia.
     split; [lia|]. split; [|split; [|apply fin_ex; assumption]].
     + intros F0. pose proof (i_begun_eq _ _ I F0 i) as B'. rewrite Hw in B'. simpl in B'. lia.
@@ -67,33 +75,37 @@ Proof.
 Qed.
 
 Lemma persistent_l c ls s :
-  c_persist c = true -> run c (init c) ls = Some s -> pc s = PReturned ->
+  c_queue c = true -> c_persist c = true -> run c (init c) ls = Some s -> pc s = PReturned ->
   (forall i, In i (accepted s) ->
      In i (store s) \/ exists r, In (i, r) (finished s) /\ r <> RShutdown /\ 1 <= cnt i (begun s))
   /\ (forall i, cnt i (ended s) = cnt i (begun s))
   /\ closed s = true.
 Proof.
-  intros M R P. assert (I : Inv c s) by (eapply run_inv; [apply init_inv|eassumption]).
-  destruct (returned_quiet _ _ I P) as (_ & _ & _ & _ & Hw & _ & _ & _ & Hlen).
+  intros Q M R P. assert (I : Inv c s) by (eapply run_inv; [apply init_inv|eassumption]).
+  destruct (returned_quiet _ _ I Q P) as (_ & Hh & _ & _ & Hw & _ & _ & Hin).
   split; [|split].
-  - intros i A. apply cnt_in in A. destruct (i_store _ _ I M i A) as [S|(r & F & Nr)]; [left; assumption|].
+  - intros i A. apply cnt_in in A. destruct (i_store _ _ I M Q i A) as [S|(r & F & Nr)]; [left; assumption|].
     right. exists r. split; [assumption|]. split; [assumption|].
-    pose proof (i_begun_ge _ _ I i) as B. pose proof (fin_in _ _ _ F). lia.
+    pose proof (i_begun_ge _ _ I i) as B. pose proof (fin_in _ _ _ F). pose proof (i_fin_done _ _ I i). lia.
   - intros i. pose proof (i_ended _ _ I i) as E. rewrite Hw in E. simpl in E. lia.
-  - rewrite (i_closed _ _ I), M. pose proof (i_refs _ _ I M) as Rf. rewrite (i_qstop _ _ I), P in Rf. simpl in Rf.
-    rewrite Rf, Hlen. reflexivity.
+  - rewrite (i_closed _ _ I), M. pose proof (i_refs _ _ I M Q) as Rf. rewrite (i_qstop _ _ I), Q, P in Rf. simpl in Rf.
+    assert (L : length (taken s) <= length (finished s)).
+    { rewrite <- (length_map_fst (finished s)). apply cnt_le_length. intros i. rewrite cnt_map_fst.
+      pose proof (i_cons _ _ I i) as C. pose proof (i_taken _ _ I i). rewrite Hh, (Hin i) in C.
+      unfold cnt in C at 2. simpl in C. lia. }
+    replace (refs s) with 0 by lia. reflexivity.
 Qed.
 
 Definition is_offer (l : label) : bool := match l with LOffer _ | LOfferFail _ => true | _ => false end.
 
 Lemma after_return_l c ls s :
-  run c (init c) ls = Some s -> pc s = PReturned ->
+  c_queue c = true -> run c (init c) ls = Some s -> pc s = PReturned ->
   live s = 0 /\ postb s = 0 /\ forall l s', step c s l = Some s' -> is_offer l = true /\ pc s' = PReturned.
 Proof.
-  intros R P. assert (I : Inv c s) by (eapply run_inv; [apply init_inv|eassumption]).
-  destruct (returned_quiet _ _ I P) as (H1 & H2 & H3 & H4 & H5 & H6 & _).
+  intros Q R P. assert (I : Inv c s) by (eapply run_inv; [apply init_inv|eassumption]).
+  destruct (returned_quiet _ _ I Q P) as (H1 & H2 & H3 & H4 & H5 & H6 & _).
   split; [unfold live; rewrite H1, H2, H3, H5, H6; reflexivity|]. split; [apply (i_postb _ _ I)|].
-  intros l s' St. destruct l; unfold step in St; rewrite ?H1, ?H2, ?H3, ?H5, ?P in St;
+  intros l s' St. destruct l; unfold step in St; rewrite ?H1, ?H2, ?H3, ?H5, ?P, ?Q in St; cbn [negb orb andb] in St;
     try discriminate; try (destruct k; discriminate);
     try (destruct (timer s); discriminate).
   - destruct (mem i (accepted s) || c_persist c && closed s); [discriminate|]. injection St as <-. split; [reflexivity|assumption].
@@ -101,21 +113,21 @@ Proof.
 Qed.
 
 (* runs from a returned state never contain an export begin *)
-Lemma no_begin_after_return_l c : forall ls2 ls1 s1 s2,
+Lemma no_begin_after_return_l c : c_queue c = true -> forall ls2 ls1 s1 s2,
   run c (init c) ls1 = Some s1 -> pc s1 = PReturned -> run c s1 ls2 = Some s2 ->
   forallb is_offer ls2 = true /\ begun s2 = begun s1 /\ pc s2 = PReturned.
 Proof.
-  induction ls2 as [|l ls2 IH]; intros ls1 s1 s2 R1 P R2; simpl in R2.
+  intros Q. induction ls2 as [|l ls2 IH]; intros ls1 s1 s2 R1 P R2; simpl in R2.
   - injection R2 as <-. repeat split; auto.
   - destruct (step c s1 l) as [s'|] eqn:St; [|discriminate].
-    destruct (after_return_l _ _ _ R1 P) as (_ & _ & Hs). destruct (Hs _ _ St) as [Ho Hp].
+    destruct (after_return_l _ _ _ Q R1 P) as (_ & _ & Hs). destruct (Hs _ _ St) as [Ho Hp].
     assert (R1' : run c (init c) (ls1 ++ [l]) = Some s').
     { clear - R1 St. revert R1. generalize (init c). induction ls1 as [|a ls1 IH']; intros s0 R1; simpl in *.
       - injection R1 as ->. rewrite St. reflexivity.
       - destruct (step c s0 a); [apply IH'; assumption|discriminate]. }
     destruct (IH _ _ _ R1' Hp R2) as (A & B & C).
     split; [simpl; rewrite Ho, A; reflexivity|]. split; [|assumption].
-    rewrite B. destruct l; try discriminate; unfold step in St.
+    rewrite B. destruct l; try discriminate; unfold step in St; rewrite ?Q in St; cbn [negb orb andb] in St.
     + destruct (mem i (accepted s1) || c_persist c && closed s1); [discriminate|]. injection St as <-. reflexivity.
     + destruct (c_persist c && closed s1); [|discriminate]. injection St as <-. reflexivity.
 Qed.
@@ -150,17 +162,17 @@ Qed.
 (* whatever sits in the batcher's current batch at any time is exported (and finished) by the time
    Shutdown returns — in particular the partial batch taken by the final flush *)
 Lemma partial_batch_l c ls1 ls2 s1 s2 :
-  run c (init c) ls1 = Some s1 -> run c s1 ls2 = Some s2 -> pc s2 = PReturned ->
+  c_queue c = true -> run c (init c) ls1 = Some s1 -> run c s1 ls2 = Some s2 -> pc s2 = PReturned ->
   forall i, In i (current s1) -> 1 <= cnt i (begun s2) /\ exists r, In (i, r) (finished s2).
 Proof.
-  intros R1 R2 P i C.
+  intros Q R1 R2 P i C.
   assert (I1 : Inv c s1) by (eapply run_inv; [apply init_inv|eassumption]).
   assert (I2 : Inv c s2) by (eapply run_inv; eassumption).
   apply cnt_in in C.
   assert (T1 : 1 <= cnt i (taken s1)).
-  { pose proof (i_cons _ _ I1 i). pose proof (i_taken _ _ I1 i). unfold inflight in *. lia. }
+  { pose proof (i_cons _ _ I1 i). pose proof (i_taken _ _ I1 i). unfold parts_out in *. lia. }
   pose proof (run_taken_mono c i _ _ _ R2).
-  destruct (taken_exported _ _ I2 P i) as [B F]; [lia|]. split; [assumption|apply fin_ex; assumption].
+  destruct (taken_exported _ _ I2 Q P i) as [B F]; [lia|]. split; [assumption|apply fin_ex; assumption].
 Qed.
 
 (* the final flush really takes the current batch *)
@@ -174,10 +186,10 @@ Qed.
 
 (* ---- the ghost fields, read off the label list --------------------------------------------------- *)
 Fixpoint offers (ls : list label) : list id :=
-  match ls with [] => [] | LOffer i :: r => i :: offers r | _ :: r => offers r end.
+  match ls with [] => [] | LOffer i :: r => i :: offers r | LSend i :: r => i :: offers r | _ :: r => offers r end.
 
 Lemma step_accpre c s l s' : step c s l = Some s' ->
-  accpre s' = (match l with LOffer i => if is_not (pc s) then [i] else [] | _ => [] end) ++ accpre s.
+  accpre s' = (match l with LOffer i | LSend i => if is_not (pc s) then [i] else [] | _ => [] end) ++ accpre s.
 Proof. intros H. start H l; rw_eqs; reflexivity. Qed.
 
 Lemma step_pc_not c s l s' : step c s l = Some s' -> l <> LShutCall -> is_not (pc s') = is_not (pc s).
@@ -229,50 +241,50 @@ Proof.
   destruct (step c s a) eqn:E; [injection H as <- <-; assumption | apply IH; assumption].
 Qed.
 
-Lemma settle_f_run allow : forall fuel hc sizes s ls evs s',
-  settle_f allow fuel hc sizes s = (ls, evs, s') -> run (h_cfg hc) s ls = Some s'.
+Lemma settle_f_run allow : forall fuel hc sizes s ls evs s' sz',
+  settle_f allow fuel hc sizes s = (ls, evs, s', sz') -> run (h_cfg hc) s ls = Some s'.
 Proof.
-  induction fuel as [|f IH]; intros hc sizes s ls evs s' H; simpl in H.
-  - injection H as <- _ <-. reflexivity.
+  induction fuel as [|f IH]; intros hc sizes s ls evs s' sz' H; simpl in H.
+  - injection H as <- _ <- _. reflexivity.
   - destruct (first_enabled (h_cfg hc) s (filter allow (candidates hc sizes s))) as [[l s1]|] eqn:E.
-    + destruct (settle_f allow f hc sizes s1) as [[ls1 evs1] s2] eqn:E2. injection H as <- _ <-.
+    + destruct (settle_f allow f hc (sizes_after hc sizes s l) s1) as [[[ls1 evs1] s2] sz2] eqn:E2. injection H as <- _ <- _.
       simpl. rewrite (first_enabled_step _ _ _ _ _ E). eapply IH; eassumption.
-    + injection H as <- _ <-. reflexivity.
+    + injection H as <- _ <- _. reflexivity.
 Qed.
 
-Lemma settle_run : forall fuel hc sizes s ls evs s',
-  settle fuel hc sizes s = (ls, evs, s') -> run (h_cfg hc) s ls = Some s'.
+Lemma settle_run : forall fuel hc sizes s ls evs s' sz',
+  settle fuel hc sizes s = (ls, evs, s', sz') -> run (h_cfg hc) s ls = Some s'.
 Proof. exact (settle_f_run (fun _ => true)). Qed.
 
-Lemma race_takes_run : forall k hc sizes s ls evs s',
-  race_takes k hc sizes s = Some (ls, evs, s') -> run (h_cfg hc) s ls = Some s'.
+Lemma race_takes_run : forall k hc sizes s ls evs s' sz',
+  race_takes k hc sizes s = Some (ls, evs, s', sz') -> run (h_cfg hc) s ls = Some s'.
 Proof.
-  induction k as [|k IH]; intros hc sizes s ls evs s' H; cbn [race_takes] in H;
-    destruct (settle_f not_take_stop settle_fuel hc sizes s) as [[ls1 evs1] s1] eqn:E1;
-    pose proof (settle_f_run _ _ _ _ _ _ _ _ E1) as R1.
-  - injection H as <- _ <-. assumption.
+  induction k as [|k IH]; intros hc sizes s ls evs s' sz' H; cbn [race_takes] in H;
+    destruct (settle_f not_take_stop settle_fuel hc sizes s) as [[[ls1 evs1] s1] sz1] eqn:E1;
+    pose proof (settle_f_run _ _ _ _ _ _ _ _ _ E1) as R1.
+  - injection H as <- _ <- _. assumption.
   - destruct (step (h_cfg hc) s1 LTake) as [s2|] eqn:St; [|discriminate].
-    destruct (race_takes k hc sizes s2) as [[[ls2 evs2] s3]|] eqn:E2; [|discriminate].
-    injection H as <- _ <-. eapply run_app; [eassumption|]. cbn [run]. rewrite St. eapply IH; eassumption.
+    destruct (race_takes k hc sz1 s2) as [[[[ls2 evs2] s3] sz3]|] eqn:E2; [|discriminate].
+    injection H as <- _ <- _. eapply run_app; [eassumption|]. cbn [run]. rewrite St. eapply IH; eassumption.
 Qed.
 
-Lemma exec_race_run hc sizes s m e ls evs s' :
-  exec_race hc sizes s m e = Some (ls, evs, s') -> run (h_cfg hc) s ls = Some s'.
+Lemma exec_race_run hc sizes s m e ls evs s' sz' :
+  exec_race hc sizes s m e = Some (ls, evs, s', sz') -> run (h_cfg hc) s ls = Some s'.
 Proof.
   unfold exec_race. intros H.
   destruct (step (h_cfg hc) s LShutCall) as [s1|] eqn:S1; [|discriminate].
   destruct (step (h_cfg hc) s1 LCloseStop) as [s2|] eqn:S2; [|discriminate].
-  assert (RT : forall r, (if Nat.eqb (m - unbegun_taken s) 0 && negb e then Some ([], [], s2)
+  assert (RT : forall r, (if Nat.eqb (m - unbegun_taken s) 0 && negb e then Some ([], [], s2, sizes)
                           else race_takes (m - unbegun_taken s) hc sizes s2) = Some r ->
-                         run (h_cfg hc) s2 (fst (fst r)) = Some (snd r)).
-  { intros [[l0 e0] s0]. destruct (Nat.eqb (m - unbegun_taken s) 0 && negb e); intros X.
-    - injection X as <- _ <-. reflexivity.
+                         run (h_cfg hc) s2 (fst (fst (fst r))) = Some (snd (fst r))).
+  { intros [[[l0 e0] s0] z0]. destruct (Nat.eqb (m - unbegun_taken s) 0 && negb e); intros X.
+    - injection X as <- _ <- _. reflexivity.
     - eapply race_takes_run; eassumption. }
-  destruct (if Nat.eqb (m - unbegun_taken s) 0 && negb e then Some ([], [], s2)
-            else race_takes (m - unbegun_taken s) hc sizes s2) as [[[ls3 evs3] s3]|] eqn:E3; [|discriminate].
+  destruct (if Nat.eqb (m - unbegun_taken s) 0 && negb e then Some ([], [], s2, sizes)
+            else race_takes (m - unbegun_taken s) hc sizes s2) as [[[[ls3 evs3] s3] sz3]|] eqn:E3; [|discriminate].
   specialize (RT _ eq_refl). cbn [fst snd] in RT.
   destruct (step (h_cfg hc) s3 (LQueueStop (qstop_err hc s3))) as [s4|] eqn:S4; [|discriminate].
-  destruct (settle settle_fuel hc sizes s4) as [[ls5 evs5] s5] eqn:E5. injection H as <- _ <-.
+  destruct (settle settle_fuel hc sz3 s4) as [[[ls5 evs5] s5] sz5] eqn:E5. injection H as <- _ <- _.
   cbn [run]. rewrite S1. cbn [run]. rewrite S2.
   eapply run_app; [exact RT|]. cbn [run]. rewrite S4. eapply settle_run; eassumption.
 Qed.
@@ -282,11 +294,11 @@ Lemma exec_action_run hc sizes s a ls evs s1 sizes1 :
 Proof.
   unfold exec_action. intros E.
   destruct a.
-  5: { destruct (exec_race hc sizes s m e) as [[[ls0 evs0] s0]|] eqn:Er; [|discriminate].
+  5: { destruct (exec_race hc sizes s m e) as [[[[ls0 evs0] s0] sz0]|] eqn:Er; [|discriminate].
        injection E as <- _ <- _. eapply exec_race_run; eassumption. }
   all: match type of E with context[action_label ?h ?st ?a] => destruct (action_label h st a) as [l|] end; [|discriminate];
        match type of E with context[step ?c ?st ?x] => destruct (step c st x) as [s0|] eqn:St end; [|discriminate];
-       match type of E with context[settle ?f ?h ?z ?y] => destruct (settle f h z y) as [[ls0 evs0] s00] eqn:Se end;
+       match type of E with context[settle ?f ?h ?z ?y] => destruct (settle f h z y) as [[[ls0 evs0] s00] sz00] eqn:Se end;
        injection E as <- _ <- _; cbn [run]; rewrite St; eapply settle_run; eassumption.
 Qed.
 
